@@ -191,6 +191,12 @@ def run(ctx):
     E = Enc()
     uv = [unit_v(E, c) for c in units]
     mv = [mod_v(E, c) for c in mods]
+    pert = next((c for c in units if c['status'] == 'changed'), None)
+    pert_v = None
+    if pert is not None:
+        pc = dict(pert)
+        pc['out'] = base64.b64encode(base64.b64decode(pert['out']) + b' ').decode()
+        pert_v = unit_v(E, pc)
     v = ['From Coq Require Import Uint63.', 'From Regal Require Import Check.C11Check.', 'Open Scope N_scope.'] + E.defs
     CH = 400
     chunks = []
@@ -201,7 +207,12 @@ def run(ctx):
     v.append('Definition mods : list mod_case := %s.' % clist(mv))
     v.append('Definition R1 := Eval vm_compute in failing unit_agrees 0 units.')
     v.append('Definition R2 := Eval vm_compute in failing mod_ok 0 mods.')
-    v.append('Print R1. Print R2.')
+    # self-test of the comparison: a perturbed observation must be flagged
+    if pert_v is not None:
+        v.append('Definition R3 := Eval vm_compute in failing unit_agrees 0 [%s].' % pert_v)
+    else:
+        v.append('Definition R3 := [0]%nat.')
+    v.append('Print R1. Print R2. Print R3.')
     rc, cout = vlib.coq_eval(ctx, 'Cases_C11', '\n'.join(v))
     if rc != 0:
         raise RuntimeError('case evaluation failed:\n' + cout[-3000:])
@@ -209,6 +220,8 @@ def run(ctx):
     r2 = vlib.parse_nat_list(cout, 'R2')
     if r1 is None or r2 is None:
         raise RuntimeError('could not read the results of the case evaluation:\n' + cout[-2000:])
+    if vlib.parse_nat_list(cout, 'R3') != [0]:
+        raise RuntimeError('self-test failed: a perturbed observation was not flagged by Check.C11Check.unit_agrees')
 
     # ---- verdicts: the predicate on the implementation first (concrete failing inputs) ----------------
     classes = collections.Counter()
